@@ -95,6 +95,24 @@ impl Scenario for Batch {
                 }
             }
         }
+        // a backlog from before the batch (a publish on channel 1 that met a stalled transport):
+        // the batch contains the transport's "writable again" (W) next to the close(s) and
+        // requests, so that one wake-up flushes old output, reads the close and queues new output
+        for close in [vec!["SC"], vec!["SCh"], vec!["SCh", "SC"]] {
+            for extra in [vec![], vec!["A2"], vec!["K:close"], vec!["K:alloc"], vec!["A1:call"]] {
+                let mut items: Vec<String> = vec!["W".to_string()];
+                items.extend(close.iter().map(|x| x.to_string()));
+                items.extend(extra.iter().map(|x| x.to_string()));
+                for order in permutations(&items) {
+                    let sc = order.iter().position(|e| e == "SC");
+                    let sch = order.iter().position(|e| e == "SCh");
+                    if matches!((sc, sch), (Some(a), Some(b)) if a < b) {
+                        continue;
+                    }
+                    v.push(json!({"events": order, "mode": "one", "stall": false, "prepub": true}));
+                }
+            }
+        }
         v
     }
     fn bound(&self, _tier: &str, _p: &Value) -> usize {
@@ -114,6 +132,11 @@ impl Scenario for Batch {
         let stall = p["stall"] == true;
         let precall = p["precall"] == true;
         let qbound = p["bound"].as_u64().unwrap_or(16) as usize;
+        let prepub = p["prepub"] == true;
+        if prepub {
+            // only the batch's own "W" lets the transport take bytes again
+            cfg.no_grants = true;
+        }
         if precall {
             // channel 1: Open = request 1, Consume = 2 are answered at once; the purge issued before
             // the batch (request 3) is answered when the batch says so ("R1")
@@ -235,10 +258,17 @@ impl Scenario for Batch {
                     let _ = go_a1_tx.send("A1:call".to_string());
                     ctx.wait_blocked(a1);
                 }
+                if prepub {
+                    // a publish on channel 1 is accepted and stays in the I/O thread's buffer
+                    ctx.stall_transport();
+                    let _ = go_a1_tx.send("A1:publish".to_string());
+                    ctx.wait_blocked(a1);
+                }
                 ctx.wait_io_quiet();
                 ctx.hold_io(true);
                 for ev in &events {
                     match ev.as_str() {
+                        "W" => ctx.force_grant(),
                         "SC" | "SCh" => {
                             if !ctx.force_push(ev) {
                                 ctx.log(format!("push {} not possible", ev));
